@@ -1284,7 +1284,7 @@ PROPS = {
     "C11": dict(gen=gen_c11, post=post_c11),
     "C12": dict(gen=gen_c12),
     "C17": dict(gen=gen_c17),
-    "C18": dict(gen=gen_c18, post=post_c18),
+    "C18": dict(gen=gen_c18, post=post_c18, sendsync=True),
     "C19": dict(gen=gen_c19),
     "C06": dict(gen=gen_c06),
     "C07": dict(gen=gen_c07),
